@@ -96,7 +96,7 @@ class Aggregate:
 
 
 def write(prop, tier, seed, level, agg, selftest, wall, batch_wall=None, error=None, violations=0,
-          known=(), minimisation=(), not_run=0, signatures_seen=()):
+          known=(), minimisation=(), not_run=0, signatures_seen=(), regression_replays=0):
     os.makedirs(os.path.join(HERE, "evidence"), exist_ok=True)
     cov = {
         "evaluations": agg.runs if agg else 0,
@@ -125,6 +125,7 @@ def write(prop, tier, seed, level, agg, selftest, wall, batch_wall=None, error=N
             "distinct_abstract_states": len(agg.states),
             "violations_of_other_properties_seen_not_reported_here": dict(sorted(agg.other_props.items())),
             "runs_not_started_budget": not_run,
+            "regression_replays_of_repaired_defects": regression_replays,
             "real_vs_stub": REAL_VS_STUB,
         })
         for k, v in agg.extra.items():
